@@ -169,10 +169,18 @@ impl<P: ConnectionProvider> DnsHandle for NameServerPool<P> {
                 } else {
                     debug!(%query, "creating new shared lookup");
 
-                    let lookup = async move {
-                        match state.try_send(request).await {
-                            Ok(response) => Some(Ok(response)),
-                            Err(e) => Some(Err(e)),
+                    let lookup = {
+                        let active_requests = active_requests.clone();
+                        let key = key.clone();
+                        async move {
+                            let result = state.try_send(request).await;
+                            // Unregister the lookup as part of completing it: once a result exists
+                            // nobody may join this lookup any more. (The creator's drop guard alone
+                            // runs only when the creator task is polled, so a waiter that is polled
+                            // first and immediately re-sends the query - as `RetryDnsHandle` does
+                            // after an error - would be handed this completed lookup again.)
+                            remove_active_request(&active_requests, &key);
+                            Some(result)
                         }
                     }
                     .boxed()
@@ -927,7 +935,19 @@ struct ActiveRequestCleanup {
 
 impl Drop for ActiveRequestCleanup {
     fn drop(&mut self) {
-        self.active_requests.lock().remove(&self.key);
+        remove_active_request(&self.active_requests, &self.key);
+    }
+}
+
+/// Removes the entry registered under exactly this `key` allocation. A newer lookup for an equal
+/// key (registered after this one completed or was cancelled) is left alone.
+fn remove_active_request(
+    active_requests: &Mutex<HashMap<Arc<CacheKey>, SharedLookup>>,
+    key: &Arc<CacheKey>,
+) {
+    let mut active = active_requests.lock();
+    if matches!(active.get_key_value(key), Some((registered, _)) if Arc::ptr_eq(registered, key)) {
+        active.remove(key);
     }
 }
 
